@@ -43,6 +43,10 @@ export AsherahVerif.Expected.Server (session sessionReturns newHandler newHandle
   fromProtobufDRRFields toProtobufDRRFields uninitializedText alreadyInitializedText protoFields)
 end E
 
+/-- the option wiring of the sidecar's constructors is the vetted one. -/
+theorem generated_option_wiring :
+    AsherahVerif.Generated.Server.optionWiring = AsherahVerif.Expected.Server.optionWiring := rfl
+
 /-- `Stream`: deferred `Close` of an existing handler, Recv / EOF→nil / error→err / handle / Send /
 send error→err -/
 theorem generated_stream : G.stream = E.stream ∧ G.streamReturns = E.streamReturns := ⟨rfl, rfl⟩
